@@ -209,6 +209,24 @@ def run_init(mutate=None, prefixes=("C",), seeded=False, again=False):
             check("C08.time_dependent_potential.scaled_like_at_construction", sym.eq(A_step.at(e_, cc) * (Bc2 * xi_si), A_num.at(e_, cc) * phi * ell), fallback_extra=cong)
         except (KeyError, AttributeError, TypeError) as ex_:
             check("C08.time_dependent_potential.evaluated_at_physical_edge_centres_at_the_given_time", False, note=f"{type(ex_).__name__}: {ex_}")
+        # the device scales are functions of the CURRENT layer values: an in-place change of the layer (how parameter sweeps on one mesh are
+        # written) is seen by the next read, whatever was read before
+        try:
+            _ = dev.K0, dev.A0, dev.Bc2
+            lam2, xi2 = SR(R("lambda_num_2")), SR(R("xi_num_2"))
+            assume(lam2 > 0, xi2 > 0)
+            layer.london_lambda, layer.coherence_length = lam2, xi2
+            xi_si2 = xi2 * ell
+            Bc2_2 = ureg.phi0 / (2 * pi * xi_si2 * xi_si2)
+            Lam2 = (lam2 * ell) * (lam2 * ell) / (d * ell)
+            K0_2 = 4 * xi_si2 * Bc2_2 / (ureg.mu0 * Lam2)
+            got = dict(K0=dev.K0, A0=dev.A0, Bc2=dev.Bc2)
+            want = dict(K0=K0_2, A0=Bc2_2 * xi_si2, Bc2=Bc2_2)
+            si_ = lambda q_: SR.lift(q_.mag) * SR.lift(q_.scale)
+            for nm_ in ("K0", "A0", "Bc2"):
+                check(f"C08.scales_follow_in_place_changes_of_the_layer[{nm_}]", sym.eq(si_(got[nm_]), want[nm_]), fallback_extra=cong)
+        finally:
+            layer.london_lambda, layer.coherence_length = lam, xi
         check("C08.sites_in_length_units", sym.eq(s.sites.at(k_, cc) * ell, xi_si * SR(M.site(k_.e, cc.e))), fallback_extra=cong)
         # C08 / C01: requested current in solver units: 4 (I_phys / length unit) / K0
         cur = s.current_func(SR(R("t")))
